@@ -70,7 +70,7 @@ class F4(RecurrentProcessor):
         return 0
 
 
-class GenericBase(ProcessorBase):
+class GenericBase(RecurrentProcessor):
     """generic base node (re-bound through build_node)"""
     name = "generic_base"
     verbose_name = "Generic base"
@@ -79,7 +79,7 @@ class GenericBase(ProcessorBase):
         return 0
 
 
-class CustomType(ProcessorBase):
+class CustomType(RecurrentProcessor):
     """a node with a user-defined node_type (docs/usage_examples.md uses 'ml_model')"""
     name = "custom"
     node_type = "ml_model"
